@@ -127,8 +127,12 @@ def site(tree):
         tree.write(b"names/" + b, b"x\n")
     tree.write("mixed/gophermap", b"Title line\n0Doc\tdoc.txt\n1Dir\t/docs\n1Far\t/x y\texample.org\t7070\n1Mirror (host only)\t/pub/mirror\tgopher.example.net\n1Other port here\t/alt\t\t7071\nhWeb\tURL:http://example.org/a?b=c&d\nhMail the admin\tURL:mailto:admin@example.org\nhCall\tURL:tel:+15550100\n7Search\t/search here\n\n0caf\xc3\xa9 \xff\t/names/\xae.txt\n")
     tree.write("mixed/doc.txt", b"d\n")
+    # link blocks to other servers: with a type, without one (a document, as in the Gopher menu), host only, port only
+    tree.write("linked/.Links", b"Name=No type given\nPath=/arch\nHost=other.example\nPort=70\n\nName=Typed\nType=1\nPath=/pub\nHost=other.example\nPort=7070\n\n"
+                                b"Name=Untyped, host only\nPath=/x y\nHost=third.example\n")
+    tree.write("linked/file.txt", b"f\n")
     tree.write("mixed/doc.txt.abstract", b"An abstract\nwith two lines\n")
-    return ["/", "/docs", "/names", "/mixed", "/map", "/pics", "/mail", "/mail/box.mbox", "/menu.gophermap", "/link-to-docs",
+    return ["/", "/docs", "/names", "/mixed", "/linked", "/map", "/pics", "/mail", "/mail/box.mbox", "/menu.gophermap", "/link-to-docs",
             "/names/dir with space", "/docs/sub"]
 
 
